@@ -47,7 +47,7 @@ func invParser(p *Parser) bool {
 //@ ensures [inv] invParser(p) && p.pos == 0 && p.input == input
 
 //@ func (*Parser).forward
-//@ requires invParser(p)
+//@ requires invParser(p) && n >= 0
 //@ modifies p.data, p.pos
 //@ ensures [inv]  invParser(p)
 //@ ensures [move] result == (old(p.pos)+n <= p.len) && (result ==> p.pos == old(p.pos)+n) && (!result ==> p.pos == old(p.pos))
@@ -100,11 +100,13 @@ func invParser(p *Parser) bool {
 //@ modifies p.data, p.pos
 //@ ensures [inv]   invParser(p) && p.pos >= old(p.pos)
 //@ ensures [range] result1 == nil ==> 0 <= result0 && result0 <= 2147483647
+//@ loop 1 invariant [same] invParser(p) && p.pos == old(p.pos) && zzSameStr(p.data, old(p.data))
 
 //@ func (*Parser).nextCode
 //@ requires invParser(p)
 //@ modifies p.data, p.pos
 //@ ensures [inv]   invParser(p) && p.pos >= old(p.pos)
+//@ loop 1 invariant [same] invParser(p) && p.pos == old(p.pos) && zzSameStr(p.data, old(p.data))
 
 //@ func (*Parser).getItemValueStrings
 //@ requires invParser(p)
